@@ -402,6 +402,13 @@ def http_fuzz(ctx, env, watch):
                     if isinstance(st, int) and body.startswith('Synthetic'):
                         continue
                     key = 'http:%s' % (site or st)
+                    if st == 'HANG' or (site or '').startswith('TimeoutError@'):
+                        # where the clock caught the request says nothing: name the route and, when it is the cause, the parameter
+                        import re as _re
+                        m_ = _re.search(r'[?&]depth=(\d+)', url)
+                        big_depth = m_ is not None and int(m_.group(1)) >= 3600
+                        mps_live = url.startswith('/mps/live/') or url.startswith('/play/mps/live/')
+                        key = 'http:HANG:mps-live-depth' if (mps_live and big_depth) else 'http:HANG:%s' % url.split('?')[0]
                     seen_sites.setdefault(key, []).append((url, role, st))
                 elif isinstance(st, int) and st < 500 and q:
                     ctx.nontriv(url)
@@ -464,6 +471,28 @@ def valid_combinations(ctx, env, watch):
                     sites.setdefault('http:%s' % site, []).append((url, st))
                 elif st == 200:
                     ctx.nontriv(url)
+        # error positions of every lexical class from_isodatetime accepts (number, time of day, date-time, date, duration) and a few it
+        # does not, on manifests and player pages of single- and multi-period streams, live and vod; every time source on the pages
+        positions = ['4', '12:00:00Z', '11:59:50Z', '2024-03-05T11:59:50Z', '2024-03-05', 'PT0S', 'PT30S', 'P1D', '-PT5S', '24:00:00Z', '12:00',
+                     '2024-03-05T11:59:50+01:00', 'T12', '99:99:99Z']
+        pages = ['/dash/%s/bbb/hand_made.mpd', '/mps/%s/mps1/hand_made.mpd', '/play/%s/bbb/hand_made.mpd/index.html',
+                 '/play/mps/%s/mps1/hand_made.mpd/index.html', '/dash/%s/bbb/manifest_e.mpd']
+        for page in pages:
+            for mode_ in ('live', 'vod'):
+                t = page % mode_
+                urls = ['%s?%s=503=%s' % (t, o_, urllib.parse.quote(p_)) for o_ in ('verr', 'aerr', 'terr', 'merr') for p_ in positions]
+                urls += ['%s?vcorrupt=%s' % (t, urllib.parse.quote(p_)) for p_ in positions]
+                if '/play/' in page:
+                    urls += ['%s?time=%s' % (t, m_) for m_ in ('direct', 'head', 'http-ntp', 'iso', 'ntp', 'sntp', 'xsd', 'bogus')]
+                for url in urls:
+                    st, site, r = watch.get(c, url)
+                    ctx.count('http:error-position-classes')
+                    if st == 'HANG' or (isinstance(st, int) and st >= 500):
+                        if r is not None and r.get_data(as_text=True)[:9] == 'Synthetic':
+                            continue
+                        sites.setdefault('http:%s' % (site or st), []).append((url, st))
+                    elif st == 200:
+                        ctx.nontriv(url)
         # event schedules at their boundaries: zero / negative interval, duration, start, timescale, count; unknown version
         for ev in ('ping', 'scte35'):
             # ... and at the upper end: values beyond the width of the fields they are written into (emsg: 32 bits;
